@@ -498,6 +498,13 @@ class Derivation:
             out.append(' => '.join(s2))
         out.append(' => '.join(steps[:-1]))
         other = 'rightmost' if self.kind == 'leftmost' else 'leftmost'
+        sc = Scratch()
+        try:        # a genuine derivation of the OTHER kind
+            out.append(make_notebook.apply_command('cfg_%s_derivation' % other, [sc.file(simple_cfg_text(inst['G']), 'cfg'), inst['w']]))
+        except Exception:
+            pass
+        finally:
+            sc.close()
         return out
 
     def check(self, inst, ans):
